@@ -198,7 +198,7 @@ def build_frame(doc):
             cols[name] = np.array(["NaT" if v is None else v for v in values], "datetime64[D]")
         elif dtype == "datetime":
             cols[name] = np.array(["NaT" if v is None else v for v in values], "datetime64[us]")
-        elif dtype == "object":
+        elif dtype in ("object", "objint"):
             cols[name] = np.array(values + [None], object)[:-1]
         else:
             raise AssertionError(dtype)
@@ -248,12 +248,16 @@ def frame_mismatch(real, doc, binary, positional=False, names=None):
                       not isinstance(got, (bool, np.bool_)) and float(got) == v)
             elif dtype == "str":
                 ok = isinstance(got, str) and got == v
+            elif dtype == "objint":
+                # an object column of ints and None comes back as a numeric column
+                ok = isinstance(got, (int, float, np.integer, np.floating)) and \
+                    not isinstance(got, (bool, np.bool_)) and float(got) == float(v)
             else:
                 ok = type(got) is type(v) and got == v
             if not ok:
                 return (f"column {name!r} ({dtype}) row {i}: {got!r} ({type(got).__name__}) "
                         f"!= {v!r}")
-        if binary:
+        if binary and dtype != "objint":
             want = {"bool": "bool", "int": "int64", "float": "float64",
                     "str": "StringDType(na_object='')", "date": "datetime64[D]",
                     "datetime": "datetime64[us]", "object": "object"}[dtype]
@@ -1480,6 +1484,17 @@ class Gen:
         r = self.rng
         fmt = r.choice([f for f in self.fmts if f in ("pickle", "parquet", "csv", "json", "npz")] or ["json"])
         doc = self.frame_doc(fmt)
+        if fmt in ("json", "csv", "parquet") and r.random() < 0.5:
+            # an object column of ints with missing cells; the edit fills a missing cell
+            n = len(doc["cols"][0][2])
+            vals = [r.choice([None, None, 5, 7]) for _ in range(n)]
+            vals[r.randrange(n)] = None
+            if any(v is not None for v in vals) or n == 1:
+                doc["cols"].append(["oi", "objint", vals])
+                ri = [i for i, v in enumerate(vals) if v is None][0]
+                self.counter += 1
+                return {"op": "rewrite", "fmt": fmt, "doc": doc, "edit": [len(doc["cols"]) - 1, ri, 77],
+                        "path": "rw%d" % self.counter, "opts": {}}
         cand = [(i, c) for i, c in enumerate(doc["cols"]) if c[1] in ("int", "float", "str", "object", "bool", "date")
                 and i > 0]
         if not cand:
